@@ -181,7 +181,7 @@ def check_access_and_stream(content, ref, idx, asm):
     exp = b""
     for (name, length, off, rpl, mll, rows, seq) in ref:
         masked = bytes(c if bytes([c]) in (b"A", b"C", b"G", b"T", b"a", b"c", b"g", b"t") else 78 for c in seq)
-        exp += b">" + name.encode() + b"\\n" + masked + b"\\n"
+        exp += b">" + name.encode() + b"\\n" + b"".join(masked[i:i + 60] + b"\\n" for i in range(0, len(masked), 60))
     ok = ok and out.getvalue() == exp
     return ok
 
@@ -274,6 +274,21 @@ def dup_names(buf: int) -> bool:
     return FIN(False)
 
 
+def long_unwrapped_line(buf: int, wsel: int) -> bool:
+    """
+    pre: buf >= 1 and 0 <= wsel <= 3
+    post: _
+    """
+    # an unwrapped record: ONE sequence line far longer than any I/O or sequence buffer default
+    # (io.DEFAULT_BUFFER_SIZE is 8192), followed by a short wrapped record; buffer size symbolic
+    START()
+    w = (8191, 8192, 8193, 20001)[pick(wsel, 0, 3)]
+    body = (b"ACGTTGCA" * (w // 8 + 1))[:w]
+    body = body[:5000] + b"NNNNNNNNNN" + body[5010:]
+    content = b">u one line\\n" + body + b"\\n>v\\nACG\\nNNT\\nA\\n"
+    return FIN(check_index(content, False, buf))
+
+
 def no_records(buf: int) -> bool:
     """
     pre: buf >= 1
@@ -346,6 +361,9 @@ def _conds(prefix=""):
             out.append(Cond(f"{prefix}run_indexing_uses_the_objects_buffer_size", src_all, "via_fastaindex_object", 600,
                             "width-2 family (runs 0..2) indexed through FastaIndex.run_indexing with an unbounded symbolic buffer_size: memory bound of the sequence buffer, index equals the reference, both cache files written",
                             encodes=ENC + ("FastaIndex.run_indexing", "FastaIndex.write_index", "FastaIndex.write_assembly")))
+            out.append(Cond(f"{prefix}long_unwrapped_line", src_all, "long_unwrapped_line", 600,
+                            "an unwrapped record whose single sequence line is 8191 / 8192 / 8193 / 20001 residues (around and beyond io.DEFAULT_BUFFER_SIZE) with an N run inside, then a short wrapped record; "
+                            "buffer size = unbounded symbolic integer >= 1", encodes=ENC))
             out.append(Cond(f"{prefix}duplicate_names_rejected", src_all, "dup_names", 120, "3 records, first and third share a name; every buffer size", encodes=ENC[:2]))
             out.append(Cond(f"{prefix}no_records_rejected", src_all, "no_records", 120, "empty file / blank line / sequence without header; every buffer size", encodes=ENC[:1]))
     return out
